@@ -8,6 +8,8 @@ CPython primitives only are shipped as oracle tables: float() of every maximal [
 characters, strptime of date-shaped texts with a non-ASCII digit, sys.get_int_max_str_digits().
 
 Implementation-only oracles (what `search` runs when a correspondence is broken; they also run on every structured case):
+  A2 "only at the END of the pattern string": a cell that does not end with `]` (a block followed by anything, a blank included) is
+     returned whole, without conditions                                                            (theorem parse_no_trailing_bracket)
   A  "modifiers are read by structure": a cell = base (no modifier-opening text) + blocks spelled from a list of conditions (every
      form, optional blanks of every kind, ASCII and non-ASCII digits) parses to exactly (base, those conditions); with an invalid
      block (month 13, Feb 30, 1.2.3, empty value …) it raises ModifierParseError                     (theorems parse_render*, …)
@@ -521,6 +523,21 @@ def oracle_A(cell, exp):
 TEXT_KEYS = {'pattern', 'merchant', 'category', 'subcategory', 'pattern_of_parsed'}
 
 
+TAILS = ['Y', ' ', '\n', '?', '*', ')', '[x', '$', '\t', '[amount', '[amount>5', ' [', '\xa0', ']x', '].', '\\']
+
+
+def oracle_A2(cell):
+    """a cell that does not end with `]` carries no modifiers"""
+    if cell.endswith(']'):
+        return None
+    got = impl_parse(cell)
+    exp = {'ok': {'pattern': cps(cell), 'amount': [], 'date': []}}
+    if got != exp:
+        return {'class': 'legacy.modifier-not-at-the-end-was-read', 'legacy_oracle': 'A', 'cell': cell, 'observed': show(got), 'required': show(exp),
+                'failure': 'a cell that does not end with ] is not returned whole and without conditions'}
+    return None
+
+
 def show(x, key=None):
     """decode code point lists for the replay file"""
     if isinstance(x, dict):
@@ -675,9 +692,18 @@ def file_stream(ctx, r, texts, b):
     return stats, bad
 
 
-def structured_oracles(r, n_cells, n_tables, b):
-    """oracles A, B, C on freshly generated structured cases; returns (failures, evaluations, nontrivial)"""
+def structured_oracles(r, n_cells, n_tables, b, n_hostile=0):
+    """oracles A, A2, B, C on freshly generated structured cases (C also on `n_hostile` hostile files without carriage returns: the
+    theorems comment_lines_inert / crlf_is_lf hold for EVERY text); returns (failures, evaluations, nontrivial)"""
     fails, ev, nontrivial = [], 0, 0
+    for _ in range(n_hostile):
+        text = gen_hostile_file(r)
+        if '\r' in text:
+            continue
+        pf = oracle_C(r, text, b)
+        ev += 3
+        if pf:
+            fails.append(pf)
     for i in range(n_cells):
         cell, exp = gen_structured_cell(r, wild=i % 3 == 0, p_bad=0.2)
         pf = oracle_A(cell, exp)
@@ -685,6 +711,11 @@ def structured_oracles(r, n_cells, n_tables, b):
         nontrivial += 'err' in exp or len(exp['ok']['amount']) + len(exp['ok']['date']) > 0
         if pf:
             fails.append(pf)
+        if i % 3 == 1:
+            pf = oracle_A2(cell + r.choice(TAILS)) or oracle_A2(gen_hostile_cell(r))
+            ev += 2
+            if pf:
+                fails.append(pf)
     for i in range(n_tables):
         cols, rows, exp = gen_table_case(r, wild=i % 4 == 0)
         eol = r.choice(['\n', '\n', '\r\n', '\r'])
@@ -739,7 +770,7 @@ def run_streams(ctx, r, b):
         import traceback
         ctx.obligation('correspondence:legacy-loader-driver', 'correspondence', False, error=traceback.format_exc()[-1500:])
         pstats = fstats = {}
-    fails, n, nontrivial = structured_oracles(r, 1500 if quick else 60000, 400 if quick else 15000, b)
+    fails, n, nontrivial = structured_oracles(r, 1500 if quick else 60000, 400 if quick else 15000, b, n_hostile=500 if quick else 20000)
     ev += n
     ctx.notes['legacy_loader_streams'] = {'pattern_cells': pstats, 'rule_files': fstats,
                                           'structured_oracle_cases(A cells, B+C tables)': n, 'of_which_nontrivial': nontrivial}
@@ -748,6 +779,6 @@ def run_streams(ctx, r, b):
 
 def search(ctx, r, b):
     """bigger budget of the implementation-only oracles (called when an obligation is broken)"""
-    fails, n, _ = structured_oracles(r, 20000 if ctx.quick else 200000, 4000 if ctx.quick else 40000, b)
+    fails, n, _ = structured_oracles(r, 20000 if ctx.quick else 200000, 4000 if ctx.quick else 40000, b, n_hostile=6000 if ctx.quick else 60000)
     ctx.cov['evaluations'] += n
     return fails[:1]
